@@ -2,7 +2,7 @@
 // line protocol, and a dump of the generated RW / flags / feature tables as the compiler sees them.
 //
 //   tables                                   -> many "T ..." lines, terminated by "T end"
-//   x <arch> <name> <opts> <extra> <op>*     -> one answer line (arch: x64|x86; opts: letters z e s E V 3 or '-'; extra: '-' or k<id>)
+//   x <arch> <name> <opts> <extra> <op>*     -> one answer line (arch: x64|x86; opts: letters z e s d u o (rd/ru/rz rounding) E V 3 or '-'; extra: '-' or k<id>)
 //   a <name> <op>*                           -> one answer line (AArch64 query_rw_info)
 //
 // x86 operand tokens:  r.<kind>.<id>   kind in gpbl gpbh gpw gpd gpq xmm ymm zmm k tmm sreg creg dreg mm st bnd
@@ -132,6 +132,9 @@ static std::string x86_query(const std::vector<std::string>& w) {
         case 'z': opts |= InstOptions::kX86_ZMask; break;
         case 'e': opts |= InstOptions::kX86_ER; break;
         case 's': opts |= InstOptions::kX86_SAE; break;
+        case 'd': opts |= InstOptions::kX86_RD_SAE; break;
+        case 'u': opts |= InstOptions::kX86_RU_SAE; break;
+        case 'o': opts |= InstOptions::kX86_RZ_SAE; break;
         case 'E': opts |= InstOptions::kX86_Evex; break;
         case 'V': opts |= InstOptions::kX86_Vex; break;
         case '3': opts |= InstOptions::kX86_Vex3; break;
@@ -465,7 +468,12 @@ static std::string x86_exec(const std::vector<std::string>& w) {
   InstId id = InstAPI::string_to_inst_id(Arch::kX64, w[1].data(), w[1].size());
   if (id == 0) return "skip noinst";
   InstOptions opts = InstOptions::kNone;
-  if (w[2] != "-") for (char c : w[2]) { if (c == 'z') opts |= InstOptions::kX86_ZMask; else if (c == 'E') opts |= InstOptions::kX86_Evex; else return "skip opts"; }
+  if (w[2] != "-") for (char c : w[2]) {
+    if (c == 'z') opts |= InstOptions::kX86_ZMask; else if (c == 'E') opts |= InstOptions::kX86_Evex;
+    else if (c == 'e') opts |= InstOptions::kX86_ER; else if (c == 's') opts |= InstOptions::kX86_SAE;
+    else if (c == 'd') opts |= InstOptions::kX86_RD_SAE; else if (c == 'u') opts |= InstOptions::kX86_RU_SAE;
+    else if (c == 'o') opts |= InstOptions::kX86_RZ_SAE; else return "skip opts";
+  }
   uint64_t undef, nst, seed;
   if (!vh::parse_hex(w[4], undef) || !vh::parse_u64(w[5], nst) || !vh::parse_u64(w[6], seed)) return "bad-line";
   BaseInst inst(id, opts);
